@@ -40,6 +40,9 @@ class Evidence:
         self.functions = []
 
     def add_unit(self, unit, res, summ):
+        for k in [k for k in summ if k.startswith("cover/")]:
+            v = summ.pop(k)
+            self.covers.append({"name": f"{unit.name}/{k}", "status": v["status"], "paths": v["instances"]})
         nprov = sum(1 for v in summ.values() if v["status"] == "proved")
         self.obligations += len(summ)
         self.discharged += nprov
